@@ -62,6 +62,27 @@ func PristineColors(name string) int {
 	return 0
 }
 
+// ScratchColorEntry registers a private copy of a built-in entry under a
+// unique scratch name ending in "-color" and returns it together with the
+// base of that name: a later lookup of base+"-256color" makes the library
+// fabricate the 256-colour variant from it (by amending this very object).
+func ScratchColorEntry(name string) (*terminfo.Terminfo, string) {
+	loadTerms()
+	p := byName[name]
+	if p == nil {
+		return nil, ""
+	}
+	cp := *p
+	scratchSeq++
+	base := fmt.Sprintf("verifcolor%d", scratchSeq)
+	cp.Name = base + "-color"
+	cp.Aliases = nil
+	terminfo.AddTerminfo(&cp)
+	return &cp, base
+}
+
+var scratchSeq int
+
 // AllNames returns every registered name and alias.
 func AllNames() []string { loadTerms(); return allNames }
 
